@@ -123,6 +123,24 @@ def names_in(e):
             and x.value.id == 'self'}
 
 
+def _defined_by_target(t):
+    """Nodes an assignment target (re)defines: the names of a tuple target, self.attr, and for d[k] = v the container d
+    (not the names that merely appear in the index)."""
+    if isinstance(t, (ast.Tuple, ast.List)):
+        for e in t.elts:
+            yield from _defined_by_target(e)
+    elif isinstance(t, ast.Starred):
+        yield from _defined_by_target(t.value)
+    elif isinstance(t, ast.Subscript):
+        yield from _defined_by_target(t.value)
+    elif isinstance(t, ast.Attribute):
+        yield t
+        if not (isinstance(t.value, ast.Name) and t.value.id == 'self'):
+            yield from _defined_by_target(t.value)
+    elif isinstance(t, ast.Name):
+        yield t
+
+
 def dep_closure(fnode, names, control=False, stop=()):
     """Names that the given names depend on through assignments inside fnode
     (flow-insensitive def-use closure; comprehension variables included).
@@ -152,7 +170,7 @@ def dep_closure(fnode, names, control=False, stop=()):
                 if g.kind == 'if':
                     src = src | names_in(g.test)
         for t in tg:
-            for x in ast.walk(t):
+            for x in _defined_by_target(t):
                 if isinstance(x, ast.Name):
                     deps.setdefault(x.id, set()).update(src)
                 elif isinstance(x, ast.Attribute) and isinstance(x.value, ast.Name) and x.value.id == 'self':
@@ -305,6 +323,10 @@ class H:
         return path
     def look(self, k):
         self.memo[k] = 1
+TABLE = {}
+FIXED = {'a': 1}
+def fill(k):
+    TABLE[k] = FIXED.get(k)
 '''
 
 
@@ -340,12 +362,35 @@ def cache_sites(tree):
                         tgt = x.func.value.attr
                     if tgt:
                         out.append(('class-attribute', x, '%s.%s' % (n.name, tgt)))
+    # module-level tables filled in by functions (TABLE = {} ... def f(): TABLE[k] = v / TABLE.setdefault / update)
+    if isinstance(tree, ast.Module):
+        tabs = {}
+        for b in tree.body:
+            if isinstance(b, ast.Assign) and len(b.targets) == 1 and isinstance(b.targets[0], ast.Name):
+                v = b.value
+                if (isinstance(v, (ast.Dict, ast.List, ast.Set)) and not (getattr(v, 'keys', None) or getattr(v, 'elts', None))) or \
+                        (isinstance(v, ast.Call) and getattr(v.func, 'id', '') in ('dict', 'OrderedDict', 'defaultdict') and not v.args):
+                    tabs[b.targets[0].id] = b
+        for fn in ast.walk(tree):
+            if not isinstance(fn, (ast.FunctionDef, ast.AsyncFunctionDef)):
+                continue
+            for x in ast.walk(fn):
+                tgt = None
+                if isinstance(x, ast.Assign):
+                    for t in x.targets:
+                        if isinstance(t, ast.Subscript) and isinstance(t.value, ast.Name) and t.value.id in tabs:
+                            tgt = t.value.id
+                if isinstance(x, ast.Call) and isinstance(x.func, ast.Attribute) and x.func.attr in ('update', 'setdefault', '__setitem__') and \
+                        isinstance(x.func.value, ast.Name) and x.func.value.id in tabs:
+                    tgt = x.func.value.id
+                if tgt:
+                    out.append(('module-table', x, tgt))
     return out
 
 
 def nocache_rule(run, rid, p, modules, text, allow=()):
     run.rule(rid, text)
-    if len(cache_sites(ast.parse(CACHE_POSITIVE))) != 2:
+    if len(cache_sites(ast.parse(CACHE_POSITIVE))) != 3:
         raise AnalysisErrorCommon('cache rule no longer matches its embedded positive example')
     n = 0
     for mn in modules:
@@ -361,7 +406,7 @@ def nocache_rule(run, rid, p, modules, text, allow=()):
             seen.add((kind, name))
             run.ob(rid, '%s::%s:%s' % (mn, kind, name), False,
                    '%s: %s %s keeps results across calls (not invalidated when the file / table / frame changes, and shared by every caller)'
-                   % (mn, 'memoising decorator on' if kind == 'decorator' else 'class-level container', name), rel=m.rel, line=node.lineno)
+                   % (mn, {'decorator': 'memoising decorator on', 'module-table': 'module-level table'}.get(kind, 'class-level container'), name), rel=m.rel, line=node.lineno)
     run.floor(rid, n, len(modules))
 
 
